@@ -7,6 +7,8 @@
 #[macro_use]
 mod contract_macros;
 
+extern crate alloc;
+
 pub mod bitfield_unit {
     include!("/repo/bindgen/codegen/bitfield_unit.rs");
     #[cfg(kani)]
